@@ -332,6 +332,201 @@ def evaluate_sheets(ctx, cases, model):
     return corr, scorr, orc
 
 
+# ---------------------------------------------------------------------------------------------
+# result tree fragments: the same in-stylesheet observations on a tree the stylesheet builds itself and converts
+# with exsl:node-set() / xalan:nodeset().  Its root is a DOCUMENT_FRAGMENT_NODE, not a DOCUMENT_NODE: it matches
+# '/', it is not the child of anything, and it may have text and several elements as children.  The oracle is the
+# defining expression evaluated in the same run (no model involved).
+
+FRAG_CORPUS = [
+    # (label, fragment tuple, pattern)
+    ("frag-node-a", [("e", "a", [], [("e", "b", [], []), ("e", "a", [], [("e", "b", [], [])])])],
+     [("rel", [S("c", "c", "N"), S("c", "c", T("a"))])]),
+    ("frag-node-desc-a", [("e", "a", [], [("e", "b", [], []), ("e", "a", [], [("e", "b", [], [])])])],
+     [("rel", [S("c", "c", "N"), S("d", "c", T("a"))])]),
+    ("frag-node", [("e", "a", [], [("e", "b", [], [])]), ("t", "t")], [("rel", [S("c", "c", "N")])]),
+    ("frag-node-text", [("t", "t"), ("e", "a", [("x", "1")], [("t", "u")])], [("rel", [S("c", "c", "N"), S("c", "c", "T")])]),
+    ("frag-node-node-pos", [("e", "a", [], [("e", "b", [], [])]), ("e", "b", [], [])],
+     [("rel", [S("c", "c", "N"), S("c", "c", "N", [("num", 1)])])]),
+    ("frag-node-a-b", [("e", "a", [], [("e", "b", [], []), ("e", "a", [], [("e", "b", [], [])])])],
+     [("rel", [S("c", "c", "N"), S("c", "c", T("a")), S("d", "c", T("b"))])]),
+    ("frag-abs-a", [("e", "a", [], [("e", "a", [], [])]), ("e", "b", [], [])], [("abs", [S("c", "c", T("a"))])]),
+    ("frag-abs-desc", [("e", "a", [], [("e", "a", [], [])]), ("t", "t")], [("abs", [S("d", "c", "N")])]),
+    ("frag-root", [("e", "a", [], [])], [("abs", [])]),
+    ("frag-star-a", [("e", "a", [], [("e", "a", [], [])])], [("rel", [S("c", "c", "w"), S("c", "c", T("a"))])]),
+    ("frag-node-attr", [("e", "a", [("x", "1")], [("e", "b", [("x", "2")], [])])], [("rel", [S("c", "c", "N"), S("c", "a", T("x"))])]),
+]
+
+
+def frag_body(top):
+    """the content of an xsl:variable that builds the tree 'top' (comments, processing instructions and
+    white space written in a stylesheet would be dropped by the stylesheet reader, so they are instructions)"""
+    out = []
+
+    def go(t):
+        if t[0] == "e":
+            out.append("<" + t[1] + "".join(' %s="%s"' % (a, xesc(v)) for a, v in t[2]) + ">")
+            for c in t[3]:
+                go(c)
+            out.append("</" + t[1] + ">")
+        elif t[0] == "t":
+            out.append("<xsl:text>%s</xsl:text>" % xesc(t[1]))
+        elif t[0] == "c":
+            out.append("<xsl:comment>%s</xsl:comment>" % xesc(t[1]))
+        else:
+            out.append('<xsl:processing-instruction name="%s">%s</xsl:processing-instruction>' % (t[1], xesc(t[2])))
+    for t in top:
+        go(t)
+    return "".join(out)
+
+
+def frag_sheet_for(ptext, top, fn):
+    """sheet_for() with the walk over the converted fragment instead of the source document"""
+    P = xesc(ptext)
+    kind = ("concat(substring('r',1,number(not(parent::node()))),substring('e',1,number(boolean(self::*))),"
+            "substring('t',1,number(boolean(self::text()))),substring('c',1,number(boolean(self::comment()))),"
+            "substring('p',1,number(boolean(self::processing-instruction()))),"
+            "substring('a',1,number(count(.|../@*)=count(../@*))))")
+    body = ['<xsl:stylesheet version="1.0" xmlns:xsl="%s" xmlns:p="urn:p" xmlns:q="urn:q" xmlns:exsl="http://exslt.org/common" '
+            'xmlns:xalan="http://xml.apache.org/xalan" exclude-result-prefixes="exsl xalan"><xsl:output method="text"/>' % XSL,
+            '<xsl:key name="m" match="%s" use="\'v\'"/>' % P,
+            '<xsl:variable name="f">%s</xsl:variable>' % frag_body(top),
+            '<xsl:template match="/"><xsl:variable name="F" select="%s($f)"/>' % fn,
+            '<xsl:for-each select="$F | $F//node() | $F//@*"><xsl:variable name="n" select="."/>',
+            '<xsl:value-of select="%s"/>' % kind,
+            '<xsl:apply-templates select="." mode="m"/>',
+            '<xsl:value-of select="number(boolean(ancestor-or-self::node()[count((%s)|$n) = count(%s)]))"/>' % (P, P),
+            '<xsl:value-of select="number(count($n|key(\'m\',\'v\')) = count(key(\'m\',\'v\')))"/>',
+            '<xsl:variable name="c"><xsl:number count="%s" level="single"/></xsl:variable>' % P,
+            '<xsl:value-of select="number(string($c) != \'\')"/><xsl:text>;</xsl:text>',
+            '</xsl:for-each></xsl:template>',
+            '<xsl:template match="%s" mode="m" priority="9">1</xsl:template>' % P,
+            '<xsl:template match="node()|@*|/" mode="m" priority="-9">0</xsl:template>',
+            '</xsl:stylesheet>']
+    return "".join(body)
+
+
+def frag_cases(r, n_docs, per_doc):
+    """r is the stream's own random.Random (seeded from ctx.rng after every other draw of the check)"""
+    cases = []
+    for label, top, pat in FRAG_CORPUS:
+        cases.append({"id": "fc-" + label, "top": top, "nodes": patgen.arena(top), "pat": pat, "cls": "frag-corpus", "fn": "exsl:node-set"})
+    for di in range(n_docs):
+        top = list(patgen.gen_doc(r))
+        enames0 = sorted({n for k, n, _ in patgen.arena(top) if k == "e"}) or ["a"]
+        # what a document cannot have: text and further elements as children of the root
+        for _ in range(r.choice([0, 1, 1, 2, 3])):
+            at = r.randrange(len(top) + 1)
+            if r.random() < 0.45:
+                if (at > 0 and top[at - 1][0] == "t") or (at < len(top) and top[at][0] == "t"):
+                    continue
+                top.insert(at, ("t", r.choice(["t", "1", " ", "xy"])))
+            else:
+                top.insert(at, patgen.gen_elem(r, r.choice([0, 1, 2]), 2, enames0, 0.3))
+        if sum(patgen.count_nodes(t) for t in top) > 60:
+            continue
+        nodes = patgen.arena(top)
+        enames = sorted({n for k, n, _ in nodes if k == "e"}) + ["a", "b"]
+        fn = r.choice(["exsl:node-set", "exsl:node-set", "xalan:nodeset"])
+        for pi in range(per_doc):
+            k = r.random()
+            shape = "node" if k < 0.4 else "guarded" if k < 0.65 else None if k < 0.85 else "k1415"
+            pat = patgen.gen_pattern(r, enames, shape)
+            if r.random() < 0.25:
+                # a path that starts at a child of anything: node() as the leftmost step of a relative path
+                j = r.randrange(len(pat))
+                head, steps = pat[j]
+                lead = ("c", "c", "N", [patgen.gen_pred(r, enames)] if r.random() < 0.2 else [], 0)
+                rest = [((r.choice(["c", "c", "d"]),) + tuple(st[1:])) if i == 0 and head == "rel" else st for i, st in enumerate(steps)]
+                pat[j] = ("rel", [lead] + rest[:3])
+            cases.append({"id": "f%dp%d" % (di, pi), "top": top, "nodes": nodes, "pat": pat, "cls": "frag-" + (shape or "any"), "fn": fn})
+    return cases
+
+
+def frag_replay_line(c):
+    import json
+    return "fragment " + json.dumps({"top": c["top"], "pattern": patgen.pattern_text(c["pat"]), "fn": c["fn"]})
+
+
+def judge_frag(top, nodes, ptext, fn, r):
+    """r: result of xsltrun for frag_sheet_for(ptext, top, fn) -> (list of (what, node), broken message or None, evaluations)"""
+    if r[0] != "ok":
+        return [("the transformation failed: %r" % (r,), None)], None, 0
+    recs = [x for x in r[1].decode("utf-8", "replace").split(";") if x]
+    vis = [i for i, (k, _, _) in enumerate(nodes) if k != "n"]
+    if len(recs) != len(vis) or any(rec[0] != nodes[i][0] for rec, i in zip(recs, vis)):
+        return [], "fragment walk does not visit the nodes in the generator's order: %s vs %s (%s)" % (
+            "".join(x[0] for x in recs), patgen.kinds_string(nodes), frag_body(top)), 0
+    N = len(nodes)
+    Tm, Sx, K, Nb = [False] * N, [False] * N, [False] * N, [False] * N
+    for rec, i in zip(recs, vis):
+        Tm[i], Sx[i], K[i], Nb[i] = rec[1] == "1", rec[2] == "1", rec[3] == "1", rec[4] == "1"
+    bad = []
+    for i in vis:
+        if Tm[i] != Sx[i]:
+            bad.append(("template match=P %s for the node but the defining expression says %s" % ("fires" if Tm[i] else "does not fire", Sx[i]), i))
+        if K[i] != Sx[i]:
+            bad.append(("xsl:key match=P %s the node but the defining expression says %s" % ("indexes" if K[i] else "does not index", Sx[i]), i))
+        j, anc = i, False
+        while j is not None:
+            anc = anc or Sx[j]
+            j = nodes[j][2]
+        if Nb[i] != anc:
+            bad.append(("xsl:number count=P level=single is %s although the defining expression selects %s ancestor-or-self" % (
+                "non-empty" if Nb[i] else "empty", "an" if anc else "no"), i))
+    return bad, None, len(vis)
+
+
+def evaluate_frags(ctx, cases):
+    from vlib import xsltrun
+    orc = []
+    xs = [{"id": c["id"], "sheet": frag_sheet_for(patgen.pattern_text(c["pat"]), c["top"], c["fn"]), "source": "<r/>"} for c in cases]
+    res = xsltrun.run(xs)
+    for c in cases:
+        ctx.count("shape:" + c["cls"])
+        ctx.count("fragment-via:" + c["fn"])
+        ptext = patgen.pattern_text(c["pat"])
+        if sum(1 for k, _, par in c["nodes"] if par == 0 and k in "et") > 1:
+            ctx.count("fragment-with-several-top-level-nodes")
+        bad, broken, n_eval = judge_frag(c["top"], c["nodes"], ptext, c["fn"], res[c["id"]])
+        if broken:
+            ctx.broken.append(broken)
+            continue
+        ctx.cov["evaluations"] += n_eval
+        ctx.cov["fragment_evaluations"] = ctx.cov.get("fragment_evaluations", 0) + n_eval
+        for what, i in bad:
+            txt = ("# result tree fragment converted with %s (vlib/xsltrun.py, source <r/>): pattern %s\n# fragment: %s\n# stylesheet: %s\n# %s%s\n"
+                   "# replay: python3 check.py C09 --replay <this file>   (runs the stylesheet, compares template / key / number with the defining expression per node)\n%s\n" % (
+                       c["fn"], ptext, patgen.xml_of(c["top"]), xs[cases.index(c)]["sheet"], what,
+                       "" if i is None else " (node %d, %s)" % (i, c["nodes"][i][0] + (":" + c["nodes"][i][1] if c["nodes"][i][1] else "")),
+                       frag_replay_line(c)))
+            orc.append({"sheet": txt, "known": None, "size": len(c["nodes"])})
+    return orc
+
+
+def run_fragments(ctx):
+    """own random stream, seeded from ctx.rng after everything else has drawn: the other streams keep their draws"""
+    import random
+    r = random.Random(ctx.rng.getrandbits(64))
+    cases = frag_cases(r, *((70, 8) if not ctx.thorough else (700, 10)))
+    orc = evaluate_frags(ctx, cases)
+    ctx.notes["fragment_oracle_failures"] = len(orc)
+    if orc:
+        orc.sort(key=lambda o: (o["size"], len(o["sheet"])))
+        txt = ("# C09 oracle failures on result tree fragments: template match / xsl:key match / xsl:number count disagree with\n"
+               "# 'some ancestor-or-self context selects the node' on a tree converted with exsl:node-set() / xalan:nodeset()\n")
+        seen = set()
+        for o in orc:
+            key = o["sheet"].split("\n")[0] + o["sheet"].split("\n")[1]
+            if key in seen:
+                continue
+            seen.add(key)
+            txt += o["sheet"]
+            if len(seen) >= 12:
+                break
+        ctx.violation("oracle-fragment", txt)
+
+
 def run(ctx):
     ctx.assumptions += [
         "namespaces: one prefix declaration (xmlns:p on the document element) besides the implicit xmlns:xml, no default namespace; name tests prefix:name and prefix:* are modelled (an expanded name is a pair coded as one number)",
@@ -412,12 +607,33 @@ def run(ctx):
         compile_part = None
     if compile_part is not None:
         compile_part.run_part(ctx)
+    # result tree fragments (own stream, drawn last)
+    run_fragments(ctx)
     return ctx.finish(LEVEL, explanation="theorems over the Gallina model of stepPattern/doStepPredicate/handleFoundIndex and of the pattern compiler's op-code choice + correspondence of the extracted matcher (and of the extracted specification) with the rebuilt library on every node + independent oracle inside the library (getMatchScore vs XPath::execute over all ancestor-or-self contexts)")
 
 
 def replay(ctx, path):
     core.build_lib("plain")
     impl, ok_h, hlog = core.build_harness("pat", "plain")
+    flines = [l for l in open(path) if l.startswith("fragment ")]
+    if flines:
+        import json
+        from vlib import xsltrun
+        bad = 0
+        for l in flines:
+            d = json.loads(l[len("fragment "):])
+            nodes = patgen.arena(d["top"])
+            sheet = frag_sheet_for(d["pattern"], d["top"], d["fn"])
+            r = xsltrun.run([{"id": "x", "sheet": sheet, "source": "<r/>"}])["x"]
+            print("pattern %s on the fragment %s (%s)" % (d["pattern"], patgen.xml_of(d["top"]), d["fn"]))
+            print("  per node: kind, template fires, defining expression selects, key indexes, xsl:number non-empty:",
+                  r[1].decode("utf-8", "replace") if r[0] == "ok" else r)
+            found, broken, _ = judge_frag(d["top"], nodes, d["pattern"], d["fn"], r)
+            for what, i in found:
+                print("  node %s: %s" % (i, what))
+            bad += len(found) + (1 if broken else 0)
+        print("disagreements on fragments:", bad)
+        return 1 if bad else 0
     lines = [l for l in open(path) if l.strip() and not l.startswith("#")]
     rc, out = core.sh([impl], input="".join(lines))
     print(out)
